@@ -51,6 +51,7 @@ type itemT struct {
 	spins  int
 	rank   int
 	honour bool // the Go function looks at the request context and returns its error once cancelled
+	span   bool // subscriptions: the function is held beyond its own event and released while the next event's handler is blocked
 }
 
 // where the request context is cancelled (0 = never)
@@ -116,6 +117,7 @@ type run struct {
 	conns      map[int]*connSpec
 	batchSpins [nBatch]int
 	syncMode   bool
+	altSync    bool // syncMode only: a failing getter that answers through a promise in the real run does not fail here
 
 	// executor-thread state
 	curConn    *connSpec
@@ -146,6 +148,9 @@ type run struct {
 	cancelled  bool
 	idleCalls  int
 	ctxErr     map[int]bool // Go items whose function returned the context's error
+
+	holdSpan bool // finish does not release the span functions
+	prevSpan *run // the previous event's run, whose span functions this event releases
 }
 
 // doCancel cancels the request context (once) and puts the event into the history.
@@ -343,7 +348,7 @@ const apiPkg = "github.com/ccbrown/api-fu."
 // its resolution (a bare channel send in the pinned code, a select in the fixed code)
 func parkedOnSend(g gInfo) bool {
 	return (g.state == "chan send" || g.state == "select") && strings.Contains(g.stack, apiPkg+"Go.func1") &&
-		!strings.Contains(g.stack, "main.(*run).goFunc")
+		!strings.Contains(g.stack, "(*run).goFunc")
 }
 
 func (r *run) waitParked(ids []int) {
@@ -475,6 +480,12 @@ func (r *run) lateHelper(late []int, stop, done chan struct{}) {
 		default:
 			return false
 		}
+	}
+	if r.prevSpan != nil {
+		for looks := 0; looks < 2000 && !stopped() && !r.executorBlockedInReceive(); looks++ {
+			runtime.Gosched()
+		}
+		r.prevSpan.releaseSpan()
 	}
 	for j, id := range late {
 		if r.cancelKind == cMidLate && j == r.cancelN {
@@ -766,8 +777,40 @@ func (r *run) finish(hang bool) {
 	r.ended = true
 	r.mu.Unlock()
 	for id := range r.ctl {
+		if r.holdSpan && r.items[id].span {
+			continue
+		}
 		r.release(id)
 	}
+}
+
+// releaseSpan lets the held functions of an earlier event return and gives their goroutines time to
+// reach the hand-over.
+func (r *run) releaseSpan() {
+	var ids []int
+	for id := range r.ctl {
+		if r.items[id].span {
+			r.mu.Lock()
+			started := r.ctl[id].started
+			r.mu.Unlock()
+			r.release(id)
+			if started {
+				ids = append(ids, id)
+			}
+		}
+	}
+	for _, id := range ids {
+		for looks := 0; looks < 2000; looks++ {
+			r.mu.Lock()
+			f := r.finished[id]
+			r.mu.Unlock()
+			if f {
+				break
+			}
+			runtime.Gosched()
+		}
+	}
+	spin(200)
 }
 
 // leaked counts goroutines (not in pre) that are still inside api-fu after the request.
@@ -783,7 +826,7 @@ func leaked(pre map[int64]bool) int {
 			}
 			n++
 			// a bare send on asyncResolutions after the request returned can never complete
-			if g.state == "chan send" && strings.Contains(g.stack, apiPkg+"Go.func1") && !strings.Contains(g.stack, "main.(*run).goFunc") {
+			if g.state == "chan send" && strings.Contains(g.stack, apiPkg+"Go.func1") && !strings.Contains(g.stack, "(*run).goFunc") {
 				hard++
 			}
 			if g.state == "chan receive" && (strings.Contains(g.stack, apiPkg+"chain.func1") || strings.Contains(g.stack, apiPkg+"join.func1")) {
